@@ -94,7 +94,7 @@ LowSeq(xs, j, run, acc) ==                     \* run = pending literal characte
   ELSE LowSeq(xs, j + 1, <<>>, Append(flush, Low(xs[j])))
 Low(r) ==
   CASE r.k = "chr" -> [k |-> "atom", cs |-> <<r.c>>]
-    [] r.k \in {"dot", "cls"} -> [k |-> "class"]
+    [] r.k \in {"dot", "cls"} -> [k |-> "class", node |-> r]            \* (node: the AST behind it, for Search.tla)
     [] r.k = "bol" -> [k |-> "bol"]
     [] r.k = "eol" -> [k |-> "eol"]
     [] r.k = "bref" -> [k |-> "bref", n |-> r.n]
